@@ -386,9 +386,13 @@ theorem range_neg_iff (start stop step i : Int) (hst : step < 0) (hi : 0 ≤ i) 
     rw [Int.mul_comm, hneg] at this
     omega
 
-/-- the fields of the histories' ranges are small: no overflow in `Range_Len` -/
-def Rng.small (r : Rng) : Prop :=
-  -(2 ^ 20 : Int) ≤ r.start ∧ r.start ≤ 2 ^ 20 ∧ -(2 ^ 20 : Int) ≤ r.stop ∧ r.stop ≤ 2 ^ 20 ∧ -(2 ^ 20 : Int) ≤ r.step ∧ r.step ≤ 2 ^ 20
+/-- the fields of a Range are `int64_t` values -/
+def Rng.i64 (r : Rng) : Prop :=
+  (-(2 ^ 63 : Int) ≤ r.start ∧ r.start < 2 ^ 63) ∧ (-(2 ^ 63 : Int) ≤ r.stop ∧ r.stop < 2 ^ 63) ∧
+  (-(2 ^ 63 : Int) ≤ r.step ∧ r.step < 2 ^ 63)
+
+theorem isI64_iff (x : Int) : isI64 x = true ↔ (-(2 ^ 63 : Int) ≤ x ∧ x < 2 ^ 63) := by
+  simp [isI64]
 
 /-- `Range_Len` as an integer -/
 def Rng.lenInt (r : Rng) : Int :=
@@ -409,38 +413,131 @@ theorem Rng.len_eq (r : Rng) : (r.len : Int) = r.lenInt ∧ 0 ≤ r.lenInt := by
         simp only [h0, h1, h2, if_false]
         omega
 
-theorem Rng.lenInt_le (r : Rng) (hs : r.small) : r.lenInt ≤ 2 ^ 22 := by
-  obtain ⟨a1, a2, b1, b2, c1, c2⟩ := hs
+/-- what `Rng.lenOk` says for a non-empty range: its width and its length fit `int64_t`, and `-step` exists -/
+theorem Rng.lenOk_spec (r : Rng) (hl : r.lenOk = true) (h0 : r.step ≠ 0) (h1 : ¬ r.stop ≤ r.start) :
+    r.stop - 1 - r.start < 2 ^ 63 ∧ r.lenInt < 2 ^ 63 ∧ -(2 ^ 63 : Int) < r.step := by
+  unfold Rng.lenOk at hl
   unfold Rng.lenInt
+  by_cases h2 : r.step > 0
+  · simp only [h0, h1, h2, if_false, if_true, Bool.and_eq_true, isI64_iff] at hl ⊢
+    omega
+  · simp only [h0, h1, h2, if_false, Bool.and_eq_true, isI64_iff] at hl ⊢
+    omega
+
+/-- a range whose `Range_Len` does not overflow has fewer than 2^63 elements -/
+theorem Rng.len_lt (r : Rng) (hl : r.lenOk = true) : r.len < 2 ^ 63 := by
+  obtain ⟨he, _⟩ := Rng.len_eq r
+  by_cases h0 : r.step = 0
+  · have : r.lenInt = 0 := by simp [Rng.lenInt, h0]
+    omega
+  · by_cases h1 : r.stop ≤ r.start
+    · have : r.lenInt = 0 := by simp [Rng.lenInt, h0, h1]
+      omega
+    · have := (Rng.lenOk_spec r hl h0 h1).2.1
+      omega
+
+/-- `Range_Len` cannot overflow when `-2^62 ≤ start`, `stop < 2^62` and the step is not `INT64_MIN` -/
+theorem Rng.lenOk_of_half (r : Rng) (h1 : -(2 ^ 62 : Int) ≤ r.start) (h2 : r.stop < 2 ^ 62) (h3 : -(2 ^ 63 : Int) < r.step) :
+    r.lenOk = true := by
+  unfold Rng.lenOk
   by_cases h0 : r.step = 0
   · simp [h0]
-  · by_cases h1 : r.stop ≤ r.start
-    · simp [h0, h1]
-    · by_cases h2 : r.step > 0
-      · have := Int.ediv_le_self (a := r.stop - 1 - r.start) r.step (by omega)
-        simp only [h0, h1, h2, if_false, if_true]; omega
-      · have := Int.ediv_le_self (a := r.stop - 1 - r.start) (-r.step) (by omega)
-        simp only [h0, h1, h2, if_false]; omega
+  · by_cases hs : r.stop ≤ r.start
+    · simp [h0, hs]
+    · by_cases hp : r.step > 0
+      · have a := Int.ediv_le_self (a := r.stop - 1 - r.start) r.step (by omega)
+        have b : 0 ≤ (r.stop - 1 - r.start) / r.step := Int.ediv_nonneg (by omega) (by omega)
+        simp only [h0, hs, hp, if_false, if_true, Bool.and_eq_true, isI64_iff]
+        omega
+      · have a := Int.ediv_le_self (a := r.stop - 1 - r.start) (-r.step) (by omega)
+        have b : 0 ≤ (r.stop - 1 - r.start) / (-r.step) := Int.ediv_nonneg (by omega) (by omega)
+        simp only [h0, hs, hp, if_false, Bool.and_eq_true, isI64_iff]
+        omega
 
-/-- documented outcome of `get(range, i)`: the index must lie in `[-len, len)` -/
+/-- element `j` of a range: counted from `start` upwards for a positive step, from `stop-1` downwards for a negative one -/
+def Rng.elem (r : Rng) (j : Int) : Int :=
+  if r.step > 0 then r.start + r.step * j else r.stop - 1 + r.step * j
+
+/-- **inside the bounds test nothing overflows**: for `0 ≤ j < len` every intermediate value of `start + step*j` /
+    `stop-1 + step*j` is an `int64_t`, and the element lies in `[start, stop)` -/
+theorem Rng.inside (r : Rng) (hr : r.i64) (hl : r.lenOk = true) (j : Int) (hj0 : 0 ≤ j) (hj : j < r.len) :
+    r.step ≠ 0 ∧ -(2 ^ 63 : Int) ≤ r.stop - 1 ∧
+    (-(2 ^ 63 : Int) < r.step * j ∧ r.step * j < 2 ^ 63) ∧
+    (r.start ≤ r.elem j ∧ r.elem j < r.stop) := by
+  obtain ⟨he, _⟩ := Rng.len_eq r
+  obtain ⟨⟨a1, a2⟩, ⟨b1, b2⟩, ⟨c1, c2⟩⟩ := hr
+  by_cases h0 : r.step = 0
+  · have : r.lenInt = 0 := by simp [Rng.lenInt, h0]
+    omega
+  · by_cases h1 : r.stop ≤ r.start
+    · have : r.lenInt = 0 := by simp [Rng.lenInt, h0, h1]
+      omega
+    · obtain ⟨w, _, _⟩ := Rng.lenOk_spec r hl h0 h1
+      by_cases h2 : r.step > 0
+      · have hli : r.lenInt = (r.stop - 1 - r.start) / r.step + 1 := by simp [Rng.lenInt, h0, h1, h2]
+        have hq : j ≤ (r.stop - 1 - r.start) / r.step := by omega
+        have hm := (Int.le_ediv_iff_mul_le (a := j) (b := r.stop - 1 - r.start) h2).mp hq
+        rw [Int.mul_comm] at hm
+        have hn : 0 ≤ r.step * j := Int.mul_nonneg (by omega) hj0
+        simp only [Rng.elem, h2, if_true]
+        omega
+      · have h2' : 0 < -r.step := by omega
+        have hli : r.lenInt = (r.stop - 1 - r.start) / (-r.step) + 1 := by simp [Rng.lenInt, h0, h1, h2]
+        have hq : j ≤ (r.stop - 1 - r.start) / (-r.step) := by omega
+        have hm := (Int.le_ediv_iff_mul_le (a := j) (b := r.stop - 1 - r.start) h2').mp hq
+        rw [Int.mul_comm, Int.neg_mul] at hm
+        have hn : 0 ≤ -r.step * j := Int.mul_nonneg (by omega) hj0
+        rw [Int.neg_mul] at hn
+        simp only [Rng.elem, h2, if_false]
+        omega
+
+/-- documented outcome of `get(range, i)`: the index must lie in `[-len, len)` — for every range, step 0 (length 0) included -/
 def Rng.getExc (r : Rng) (k : Val) : Option Exc :=
   match k with
-  | .int i => if r.step = 0 then none else if -(r.len : Int) ≤ i ∧ i < r.len then none else some .IndexOutOfBoundsError
+  | .int i => if -(r.len : Int) ≤ i ∧ i < r.len then none else some .IndexOutOfBoundsError
   | .null => some .ValueError
   | _ => some .ClassError
 
-theorem mul_bound (s i : Int) (hs1 : -(2 ^ 20 : Int) ≤ s) (hs2 : s ≤ 2 ^ 20) (hi1 : 0 ≤ i) (hi2 : i ≤ 2 ^ 40) :
-    -(2 ^ 60 : Int) ≤ s * i ∧ s * i ≤ 2 ^ 60 := by
-  constructor
-  · have h := Int.mul_le_mul_of_nonneg_right (a := -(2 ^ 20 : Int)) (b := s) (c := i) hs1 hi1
-    have h2 : -(2 ^ 20 : Int) * i ≥ -(2 ^ 20) * 2 ^ 40 := by
-      have := Int.mul_le_mul_of_nonneg_left (a := i) (b := (2 ^ 40 : Int)) (c := (2 ^ 20 : Int)) hi2 (by decide)
-      rw [Int.neg_mul, Int.neg_mul]; omega
-    have : -(2 ^ 20 : Int) * 2 ^ 40 = -(2 ^ 60) := by decide
-    omega
-  · have h := Int.mul_le_mul_of_nonneg_right (a := s) (b := (2 ^ 20 : Int)) (c := i) hs2 hi1
-    have h2 := Int.mul_le_mul_of_nonneg_left (a := i) (b := (2 ^ 40 : Int)) (c := (2 ^ 20 : Int)) hi2 (by decide)
-    have : (2 ^ 20 : Int) * 2 ^ 40 = 2 ^ 60 := by decide
-    omega
+/-- `Range_Get` in closed form, for every range with `int64_t` fields whose `Range_Len` does not overflow and **every**
+    `int64_t` index: inside `[-len, len)` the element (Python-style indexing) is returned and stored in the scratch Int;
+    outside, IndexOutOfBoundsError is raised and nothing is touched; `ub` (a signed overflow) is not among the outcomes. -/
+theorem Rng.get_int (r : Rng) (hr : r.i64) (hl : r.lenOk = true) (i : Int) (h1 : -(2 ^ 63 : Int) ≤ i) (h2 : i < 2 ^ 63) :
+    r.get (.int i) =
+      if -(r.len : Int) ≤ i ∧ i < r.len then
+        ({ r with scratch := r.elem (idxOf r.len i) }, .ok (.val (.int (r.elem (idxOf r.len i)))))
+      else (r, .raised .IndexOutOfBoundsError) := by
+  have hlen := Rng.len_lt r hl
+  have hkb : (BitVec.ofInt 64 i).toInt = i := toInt_ofInt_small i h1 h2
+  unfold Rng.get
+  simp only [hl, Bool.not_true, Bool.false_eq_true, if_false, cInt, hkb]
+  generalize hj : (if i < 0 then (r.len : Int) + i else i) = j
+  have hjI : isI64 j = true := by rw [isI64_iff]; subst hj; split <;> omega
+  have hrange : (-(r.len : Int) ≤ i ∧ i < r.len) ↔ (0 ≤ j ∧ j < r.len) := by subst hj; split <;> omega
+  simp only [hjI, Bool.not_true, Bool.false_eq_true, if_false]
+  by_cases hb : -(r.len : Int) ≤ i ∧ i < r.len
+  · obtain ⟨hj0, hjn⟩ := hrange.mp hb
+    have hidx : ((idxOf r.len i : Nat) : Int) = j := by subst hj; unfold idxOf; split <;> omega
+    obtain ⟨hs0, hst, ⟨m1, m2⟩, ⟨e1, e2⟩⟩ := Rng.inside r hr hl j hj0 hjn
+    obtain ⟨⟨a1, a2⟩, ⟨b1, b2⟩, ⟨c1, c2⟩⟩ := hr
+    simp only [hb, and_self, if_true, hidx]
+    by_cases hp : r.step > 0
+    · simp only [Rng.elem, hp, if_true] at e1 e2 ⊢
+      have x1 : isI64 (r.step * j) = true := by rw [isI64_iff]; omega
+      have x2 : isI64 (r.start + r.step * j) = true := by rw [isI64_iff]; omega
+      simp [hj0, hjn, x1, x2]
+    · have hn : r.step < 0 := by omega
+      simp only [Rng.elem, hp, if_false] at e1 e2 ⊢
+      have x0 : isI64 (r.stop - 1) = true := by rw [isI64_iff]; omega
+      have x1 : isI64 (r.step * j) = true := by rw [isI64_iff]; omega
+      have x2 : isI64 (r.stop - 1 + r.step * j) = true := by rw [isI64_iff]; omega
+      simp [hn, hj0, hjn, x0, x1, x2]
+  · have hnj : ¬ (0 ≤ j ∧ j < r.len) := fun hc => hb (hrange.mpr hc)
+    have g : (decide (j ≥ 0) && decide (j < (r.len : Int))) = false := by
+      simp only [Bool.and_eq_false_iff, decide_eq_false_iff_not]; omega
+    simp only [hb, if_false, Bool.and_assoc, g, Bool.and_false, Bool.false_eq_true]
+
+/-- when `Range_Len` itself overflows, `get` is undefined behaviour whatever the index (the hypothesis of `Rng.get_int` is needed) -/
+theorem Rng.get_lenOverflow (r : Rng) (hl : r.lenOk = false) (k : Val) : r.get k = (r, .ub) := by
+  unfold Rng.get; simp [hl]
 
 end Cello.Fail
